@@ -1,5 +1,7 @@
 import GormModel.Drv.Util
 import GormModel.Model.Heap
+import GormModel.Model.ClauseMap
+import GormModel.Model.SessionWrites
 open Lean
 open Gorm.Heap
 namespace HC06
@@ -74,6 +76,37 @@ def handleC06 (op : String) (args : Array Json) : Option Json := do
     let S := run genAll fuel h
     let outs := (compareAll genAll fuel h).map (fun (i, a, b) => Json.arr #[natJ i, toksJ a, toksJ b])
     some (Json.mkObj [("outs", Json.arr outs.toArray), ("writes", natJ S.heap.writes), ("arrays", natJ S.heap.arrs.length)])
+  | "c06.sess" =>
+    -- ["c06.sess", [flag names]] → the model's run of the regenerated Session() body for these flags
+    let names ← (← jArr? (arg args 1)).toList.mapM jStr?
+    let flags ← names.mapM Gorm.flagOfName
+    let r := Gorm.sessW (Gorm.SessFlags.ofList flags)
+    some (Json.mkObj [("bad", strListJ r.bad), ("sharedWrites", strListJ r.sharedWrites),
+      ("shared", Json.bool r.shared), ("clone", natJ r.clone)])
+  | "c06.clonemap" =>
+    -- ["c06.clonemap", [[key, hasExpr, hasBefore, hasAfterName, hasAfter, hasBuilder]…]] → the clone's entries
+    let es ← (← jArr? (arg args 1)).toList.mapM (fun j => do
+      let a ← jArr? j
+      let k ← jStr? (arg a 0)
+      let b (i : Nat) : Option (Option Nat) := do let n ← jNat? (arg a i); some (if n = 0 then none else some n)
+      some ({ key := k, expr := ← b 1, before := ← b 2, afterName := ← b 3, after := ← b 4,
+              builder := (← jNat? (arg a 5)) != 0 } : Gorm.ClauseMap.CEntry))
+    match Gorm.ClauseMap.cloneMap es with
+    | none => some (Json.str "unknown")
+    | some c =>
+      let o (x : Option Nat) : Json := natJ (x.getD 0)
+      some (Json.arr (c.map (fun e => Json.arr #[Json.str e.key, o e.expr, o e.before, o e.afterName, o e.after,
+        natJ (if e.builder then 1 else 0)])).toArray)
+  | "c06.from" =>
+    -- ["c06.from", callerJoins, stmtJoins, rounds] → joins in FROM while a query is built / after `rounds` queries
+    let c ← jNat? (arg args 1)
+    let n ← jNat? (arg args 2)
+    let k ← jNat? (arg args 3)
+    let caller := List.range c
+    let gens := (List.range n).map (fun i => [100 + i])
+    match Gorm.ClauseMap.queryRounds Gorm.ClauseMap.fromRestore gens k caller with
+    | none => some (Json.str "unknown")
+    | some a => some (Json.mkObj [("during", natJ (Gorm.ClauseMap.buildFrom a gens).length), ("after", natJ a.length)])
   | "c06.cfg" =>
     some (Json.str (toString (repr genAll)))
   | _ => none
